@@ -21,7 +21,8 @@ namespace IsoVerif.Core.Determinism
 open Lean in
 /-- `b!"abc"` = the UTF-8 bytes of the literal as a `List Nat` literal (kernel-reducible, unlike `String`) -/
 macro "b!" s:str : term => do
-  let cs := s.getString.toUTF8.toList.map (fun b => Syntax.mkNumLit (toString b.toNat))
+  let cs : Array Term :=
+    (s.getString.toUTF8.toList.map (fun b => (Syntax.mkNumLit (toString b.toNat) : Term))).toArray
   `(([$cs,*] : List Nat))
 
 /-! ## Sinks -/
@@ -104,45 +105,67 @@ def Shape.name : Shape → String
 
 abbrev Str := List Nat
 
-/-- (file, function, iterated expression) ↦ the sink shapes the loop body feeds.  Hand-written from reading
-the loop bodies; the site KEYS are re-generated from the source on every run. -/
-def classified : List ((Str × Str × Str) × List Shape) := [
-  -- validate_entire_schema: errors.extend(validated_entrypoints(db).values().flat_map(err)) with errors: BTreeSet
-  ((b!"crates/isograph_schema/src/validate.rs", b!"validate_entire_schema", b!"validated_entrypoints(db).values()"),
-   [.intoSortedSet]),
-  -- validate_scalar_selectable_directive_sets: selectables.values().flat_map(..).collect() : Vec, extended into `errors`
-  ((b!"crates/isograph_schema/src/validate.rs", b!"validate_scalar_selectable_directive_sets", b!"selectables.values()"),
-   [.collectThenSortedSet]),
-  -- parse_iso_literals: per file, contains_iso.entry(path).or_default().push(..) / parse errors into a Vec that
-  -- validate_entire_schema extends into `errors`
+/-- (file, function, iterated expression, sink hint) ↦ the sink shapes the loop body / the enclosing statement
+feeds.  Hand-written from reading the code; the KEYS are re-generated from the source on every run (the sink
+hint names the collections that are pushed to / inserted into, with their declared container types, so that
+`errors` turning from a `BTreeSet` into a `Vec` changes the key). -/
+def classified : List ((Str × Str × Str × Str) × List Shape) := [
+  -- per source file: contains_iso.entry(path).or_default().push(literal) (keyed by the file), parse errors into a
+  -- Vec that validate_entire_schema extends into its BTreeSet
   ((b!"crates/isograph_schema/src/validated_isograph_schema/process_iso_literals.rs", b!"parse_iso_literals",
-    b!"db.get_iso_literal_map().tracked().0.iter()"),
+    b!"db.get_iso_literal_map().tracked().0.iter()", b!"contains_iso,iso_literal_parse_errors:Vec"),
    [.keyedInsert, .collectThenSortedSet]),
   -- ParsedIsoLiteralsMap::stats: three counters
-  ((b!"crates/isograph_schema/src/validated_isograph_schema/process_iso_literals.rs", b!"stats", b!"self.values()"),
+  ((b!"crates/isograph_schema/src/validated_isograph_schema/process_iso_literals.rs", b!"stats", b!"self.values()",
+    b!"client_field_count,client_pointer_count,entrypoint_count"),
    [.commutativeCount]),
-  -- get_artifact_path_and_content_impl: per entrypoint, artifacts under <Type>/<field>/, cache entries keyed by
-  -- client field, output types into a hash set, persisted documents keyed by digest
-  ((b!"crates/artifact_content/src/generate_artifacts.rs", b!"get_artifact_path_and_content_impl", b!"validated_entrypoints(db)"),
+  -- per entrypoint: artifacts under <Type>/<field>/ (paths unique to the entrypoint), cache entries keyed by client
+  -- field whose value depends on the key only, output types into a hash set, persisted documents keyed by digest
+  ((b!"crates/artifact_content/src/generate_artifacts.rs", b!"get_artifact_path_and_content_impl", b!"validated_entrypoints(db)",
+    b!"encountered_output_types:HashSet,path_and_contents:Vec"),
    [.pathKeyedVec, .keyedInsert, .setToSet]),
-  -- per user-written client type: param_type artifact, output types into the hash set
+  -- per user-written client type: its param_type artifact, output types into the hash set
   ((b!"crates/artifact_content/src/generate_artifacts.rs", b!"get_artifact_path_and_content_impl",
-    b!"deprecated_client_selectable_map(db).as_ref().expect(\"Expected client selectable map to be valid.\").iter()"),
+    b!"deprecated_client_selectable_map(db).as_ref().expect(\"Expectedclientselectablemaptobevalid.\").iter()",
+    b!"encountered_output_types:HashSet,path_and_contents:Vec"),
    [.pathKeyedVec, .setToSet]),
   ((b!"crates/artifact_content/src/generate_artifacts.rs", b!"get_artifact_path_and_content_impl",
-    b!"traversal_state.accessible_client_scalar_selectables.iter()"),
+    b!"traversal_state.accessible_client_scalar_selectables.iter()", b!"encountered_output_types:HashSet"),
    [.setToSet]),
-  -- one output_type artifact per element
-  ((b!"crates/artifact_content/src/generate_artifacts.rs", b!"get_artifact_path_and_content_impl", b!"encountered_output_types"),
-   [.pathKeyedVec])
+  -- one output_type artifact per element of the hash set
+  ((b!"crates/artifact_content/src/generate_artifacts.rs", b!"get_artifact_path_and_content_impl", b!"encountered_output_types",
+    b!"path_and_contents:Vec"),
+   [.pathKeyedVec]),
+  -- errors.extend(validated_entrypoints(db).values().flat_map(err)) with errors: BTreeSet
+  ((b!"crates/isograph_schema/src/validate.rs", b!"validate_entire_schema", b!"validated_entrypoints(db).values()", b!"errors:BTreeSet"),
+   [.intoSortedSet]),
+  -- selectables.values().flat_map(..).collect() : Vec<Diagnostic>, which validate_entire_schema extends into `errors`
+  ((b!"crates/isograph_schema/src/validate.rs", b!"validate_scalar_selectable_directive_sets", b!"selectables.values()",
+    b!"<return>=collect"),
+   [.collectThenSortedSet]),
+  -- process_iso_literals: three Vecs; validate_all_iso_literals keeps only the errors, which go into the BTreeSet
+  ((b!"crates/isograph_schema/src/validated_isograph_schema/isograph_literals.rs", b!"process_iso_literals",
+    b!"contains_iso.files.into_values()", b!"errors:Vec,unprocess_client_field_items:Vec,unprocessed_entrypoints:Vec"),
+   [.collectThenSortedSet]),
+  -- iso.ts: collect, then sort_by (parent type, sort_field_name) — a total order on the unique (type, field) keys
+  ((b!"crates/artifact_content/src/iso_overload_file.rs", b!"sorted_user_written_types",
+    b!"deprecated_client_selectable_map(db).as_ref().expect(\"Expectedclientselectablemaptobevalid.\").iter()",
+    b!"client_types=collect:Vec"),
+   [.collectThenSort]),
+  ((b!"crates/artifact_content/src/iso_overload_file.rs", b!"sorted_entrypoints", b!"validated_entrypoints(db).iter()",
+    b!"entrypoints=collect:Vec"),
+   [.collectThenSort])
 ]
 
-def siteKey (s : Gen.HashIterSites.Site) : Str × Str × Str := (s.file, s.fn, s.expr)
+def siteKey (s : Gen.HashIterSites.Site) : Str × Str × Str × Str := (s.file, s.fn, s.expr, s.sink)
 
 /-- every site the translator found is classified, and nothing classified has disappeared -/
 def sitesCovered : Bool :=
   Gen.HashIterSites.sites.all (fun s => classified.any fun c => c.1 == siteKey s) &&
   classified.all (fun c => Gen.HashIterSites.sites.any fun s => c.1 == siteKey s)
+
+/-- every classified site names at least one shape -/
+def sitesShaped : Bool := classified.all fun c => !c.2.isEmpty
 
 def shapesOf (s : Gen.HashIterSites.Site) : List Shape :=
   match classified.find? (fun c => c.1 == siteKey s) with
